@@ -629,6 +629,12 @@ func main() {
 		if err1 == nil && !idemOK {
 			sum.FailC("idem", "idem", "decoding the same bytes a second time changed the destination", cj)
 		}
+		if ctx.ifaceElemKept && fast {
+			// F19-2 situation: the element's previous dynamic type meets a stream value of another type; what
+			// happens then is driver leniency (json/cbor read numbers into strings), not modelled
+			sum.Count("merge."+pathClass(t, fast), "")
+			continue
+		}
 		cv.Add(fmt.Sprintf("mkcase %d %s (mkDopts %s %s %s %s) %s %s %s %s %s", i, vh.CoqBool(fast), vh.CoqBool(ctx.mapReset), vh.CoqBool(ctx.sliceReset), vh.CoqBool(ctx.ifaceReset), vh.CoqBool(o["DeleteOnNilMapValue"].(bool)),
 			coqType(t), before, it.coq(), obs, twice))
 		sum.ModelCases++
